@@ -15,7 +15,7 @@ def driver():
     return os.path.join(BUILD, "ocaml", "driver")
 
 
-SAN_ENV = {"ASAN_OPTIONS": "detect_leaks=1:abort_on_error=0:exitcode=99:allocator_may_return_null=1",
+SAN_ENV = {"ASAN_OPTIONS": "detect_leaks=1:abort_on_error=0:exitcode=99:allocator_may_return_null=1:strict_string_checks=1",
            "UBSAN_OPTIONS": "print_stacktrace=0:halt_on_error=1:exitcode=98",
            "LSAN_OPTIONS": "exitcode=97", "MSAN_OPTIONS": "exitcode=95"}
 
